@@ -272,7 +272,8 @@ def f_shadow(F, res):
             continue
 
         def want(t, callee):
-            return callee["crate"] == "tx3_lang" and not callee.get("impl_trait") and callee["file"] == f0["file"] and len(callee["blocks"]) <= 60
+            # the analyzer's own helpers: analyzing.rs and its private submodules
+            return callee["crate"] == "tx3_lang" and not callee.get("impl_trait") and callee["file"].rsplit(".", 1)[0].startswith(f0["file"].rsplit(".", 1)[0]) and len(callee["blocks"]) <= 60
         body = mir.inline_calls(F, f0, want=want, depth=2)
         du = mir.DefUse(body)
         cfg = mir.CFG(body)
@@ -293,6 +294,23 @@ def f_shadow(F, res):
                 lit.append((bi, t, sorted({str(o.const.get("str")) for o in ko})))
             else:
                 user.append((bi, t))
+        # a closure handed to an iterator adaptor (`params.iter().for_each(|p| scope.track_param_var(..))`) inserts its names
+        # where the adaptor is called
+        for bi, t in mir.calls(body):
+            for fr in t.get("fnrefs") or ():
+                g = F.fns.get(fr)
+                if g is None or g.get("def_kind") != "Closure":
+                    continue
+                gi = mir.inline_calls(F, g, want=want, depth=2)
+                gdu = mir.DefUse(gi)
+                for bj, t2 in mir.calls(gi):
+                    c2 = t2.get("callee") or ""
+                    if c2.endswith("::insert") and "HashMap" in c2 and len(t2["args"]) == 3:
+                        vp2 = mir.op_place(t2["args"][2])
+                        if vp2 is not None and "ast::Symbol" in gi["locals"][vp2["l"]]:
+                            k2 = mir.provenance(gi, gdu, t2["args"][1], transparent_extra=KEY_TRANSPARENT)
+                            if not (k2 and all(o.kind == "const" for o in k2)):
+                                user.append((bi, t))
         if not lit:
             continue
         for bi, t, names in lit:
@@ -304,7 +322,8 @@ def f_shadow(F, res):
             else:
                 res.add([ok("F-SHADOW", key, where(f0, t["line"]), "inserted before any program-given name: a declared name of the same spelling shadows it")])
     res.count("built-in scope entries", n)
-    res.floor("built-in scope entries", n, 1)
+    if n == 0:
+        res.add([assumption("F-SHADOW", "tx3_lang::analyzing|built-in scope entries", "crates/tx3-lang/src/analyzing.rs", "no literal-named built-in value is inserted into a scope by the analyzer's analyze() bodies (helpers inlined): not decided")])
 
 
 def run(ctx):
